@@ -35,7 +35,7 @@ OptSize(lay, t)  == OptAlign(lay, t) + TSize(lay, t)
 \* field" (ends a block); j: member index; r: what it is
 Part(a, s, d, j, r) == [a |-> a, s |-> s, d |-> d, j |-> j, r |-> r]
 
-IsSizer(ms, j) == \E q \in 1..Len(ms) : ms[q].f = "ext" /\ ms[q].c = j
+IsSizer(ms, j) == \E q \in 1..Len(ms) : ms[q].f \in {"ext", "limx"} /\ ms[q].c = j
 
 MemberParts(lay, ms, j) ==
     LET m  == ms[j]
@@ -49,6 +49,7 @@ MemberParts(lay, ms, j) ==
          [] m.f = "lim"    -> << Part(4, 4, FALSE, j, "cnt"), Part(ta, m.n * ts, FALSE, j, "arr") >>
          [] m.f = "greedy" -> << Part(ta, 0, TRUE, j, "greedy") >>
          [] m.f = "ext"    -> << Part(ta, 0, TRUE, j, "arr") >>
+         [] m.f = "limx"   -> << Part(ta, m.n * ts, FALSE, j, "arr") >>
 
 RECURSIVE PartsFrom(_, _, _)
 PartsFrom(lay, ms, j) ==
